@@ -182,7 +182,41 @@ pub fn check(case: &Case, obs: &mut Obs) -> Result<(), Failure> {
                 let w0 = m.writer.get(addr).copied();
                 let same = w0.is_some() && (1..4u64).all(|i| m.writer.get(&(addr + i)).copied() == w0);
                 if !same {
-                    obs.exclude("set32-outside-one-region");
+                    // not within one region: what the call answers is outside the property, but
+                    // when it REJECTS the store (Err) the bytes are still those of the most recent
+                    // regions covering them.  (An unmapped first byte panics by design: not issued.)
+                    if w0.is_none() {
+                        obs.exclude("set32-outside-one-region");
+                        continue;
+                    }
+                    match guard(|| mem.set32(*addr, *value)) {
+                        Ok(Err(_)) => {
+                            obs.class("set32-rejected-outside-one-region");
+                            for i in 0..4u64 {
+                                let a = addr.wrapping_add(i);
+                                let want = m.bytes.get(&a).map(|e| e.0);
+                                let got = match guard(|| mem.get8(a)) {
+                                    Ok(g) => g,
+                                    Err(pi) => fv::fail!(format!("C16|get8|{}", pi.sig()), "step {}: get8(0x{:x}) panicked: {}", step, a, pi.msg),
+                                };
+                                if got != want {
+                                    fv::fail!("C16|set32|rejected-store-altered-memory", "step {}: set32(0x{:x}, 0x{:x}) was rejected, yet the byte at 0x{:x} now reads {:x?}; the most recent region covering it wrote {:x?}", step, addr, value, a, got, want);
+                                }
+                            }
+                        }
+                        Ok(Ok(())) => {
+                            // accepted although the four bytes belong to several regions: the
+                            // bytes that are mapped take the value (nothing asserted about it)
+                            obs.class("set32-accepted-across-regions");
+                            let bytes = if case.big_endian { value.to_be_bytes() } else { value.to_le_bytes() };
+                            for (i, b) in bytes.iter().enumerate() {
+                                if let Some(e) = m.bytes.get_mut(&(addr + i as u64)) {
+                                    e.0 = *b;
+                                }
+                            }
+                        }
+                        Err(_) => obs.exclude("set32-outside-one-region-panicked"),
+                    }
                     continue;
                 }
                 obs.class("set32-in-region");
@@ -412,7 +446,7 @@ fn main() -> std::process::ExitCode {
     });
     spec.assumptions = vec![
         "regions never wrap the 64-bit address space (bases <= 2^63)".into(),
-        "set32 on an unmapped address and 32-bit accesses straddling two regions are outside the property and are not issued / only weakly checked".into(),
+        "set32 on an unmapped address is not issued; a set32 straddling two regions is issued and only this is asserted: when it is rejected, every byte still reads what the most recent region covering it wrote".into(),
     ];
     spec.floors = vec![
         ("shape-straddle", 0.10),
@@ -422,6 +456,7 @@ fn main() -> std::process::ExitCode {
         ("empty-write", 0.05),
         ("read-past-region-end", 0.10),
         ("read-across-sections", 0.10),
+        ("set32-rejected-outside-one-region", 0.10),
     ];
     engine::main(spec)
 }
